@@ -1025,7 +1025,7 @@ func run(tr *vio.Trace, n int, s *script) error {
 			o := doReq(&st.Q)
 			tr.EmitRaw(map[string]any{"e": "req", "h": n, "q": st.Q, "ob": o})
 		case "reqstart":
-			// the request arrives while the module is starting; the start routine returns 100 ms later
+			// the request arrives while the module is starting; the start routine returns 30 ms later
 			tr.EmitRaw(map[string]any{"e": "try", "h": n, "op": st})
 			tr.Flush()
 			if !x07mod.Online() {
@@ -1044,7 +1044,7 @@ func run(tr *vio.Trace, n int, s *script) error {
 					time.Sleep(100 * time.Microsecond)
 				}
 				go func(ch chan struct{}) {
-					time.Sleep(100 * time.Millisecond)
+					time.Sleep(30 * time.Millisecond)
 					atomic.StoreInt32(&holdStart, 0)
 					close(ch)
 				}(releaseCh)
